@@ -343,3 +343,17 @@ def run(ctx):
 SWEEP = ["coroutine/test_futex.cpp",
          "coroutine/test_task.cpp",
          "coroutine/test_cancelable.cpp"]
+
+
+# name anchors (validated by tools/rename_sweep.py; a vanished name is exit 2, see core.check_anchor_names)
+ANCHORS = {
+    '_mutex': ['^babylon::coroutine::Futex(<|$)'],
+    '_value': ['^babylon::coroutine::Futex(<|$)', '^babylon::coroutine::Promise(<|$)'],
+    'add_awaiter': ['^babylon::coroutine::Futex(<|$)'],
+    'do_cancel': ['^babylon::coroutine::BasicCancellable(<|$)'],
+    'do_resume': ['^babylon::coroutine::BasicCancellable(<|$)'],
+    'finish_released': ['^babylon::DepositBox(<|$)'],
+    'resume_awaiter': ['^babylon::coroutine::BasicPromise(<|$)'],
+    'set_awaiter': ['^babylon::coroutine::BasicPromise(<|$)'],
+    'take_released': ['^babylon::DepositBox(<|$)'],
+}
